@@ -777,4 +777,62 @@ example : mpz_cmp_d ⟨1, [2 ^ 53 + 1]⟩ 0x4340000000000000 = some 1 ∧ mpz_cm
     mpz_cmp_d ⟨1, [1]⟩ 0xFFF0000000000000 = some 1 ∧ mpz_cmp_d ⟨1, [1]⟩ 0x7FF8000000000000 = none ∧
     dblInt 0x8000000000000003 = -3 := by decide
 
+/-! ## 7. mpf: conversion to double -/
+
+/-- mpf_get_d_spec.  An mpf is F.mant · B^(exp - |size|) (signed integer mantissa, limb exponent).  mpf_get_d returns
+    that value truncated toward zero to a double — ±∞ above the double range, denormals truncated, +0.0 below —
+    for every well-formed operand whose bit exponent (exp - |size|)·64 is representable in a `long`
+    (the C computes it in `long`, mpf/get_d.c:36). -/
+theorem mpf_get_d_spec (f : F) (hf : f.wf) (hsz : f.d.length < 2 ^ 57)
+    (he1 : LONG_MIN ≤ (f.exp - f.size.natAbs) * 64) (he2 : (f.exp - f.size.natAbs) * 64 ≤ LONG_MAX) :
+    mpf_get_d f = truncToDouble f.mant ((f.exp - f.size.natAbs) * 64) ∧
+    decode (mpf_get_d f) = truncate53 f.mant ((f.exp - f.size.natAbs) * 64) := by
+  have main : mpf_get_d f = truncToDouble f.mant ((f.exp - f.size.natAbs) * 64) := by
+    unfold mpf_get_d F.mant
+    by_cases h0 : f.size = 0
+    · have : val f.d = 0 := val_eq_zero_of_nil (by rw [hf.1, h0]; rfl)
+      rw [if_pos h0, this, h0]; simp [truncToDouble_zero]
+    · rw [if_neg h0]
+      exact mpn_get_d_eq f.d f.size _ hf.2.1 hf.2.2.1 hsz he1 he2
+  exact ⟨main, by rw [main]; exact decode_truncToDouble _ _⟩
+
+-- non-vacuity: 1.5 = [2^63, 1]·B^(1-2); -(2^64+1)·B^16 overflows; 1·B^-17 = 2^-1088 is below the denormals;
+-- 1.5·2^-1074 truncates to the smallest denormal
+example : mpf_get_d ⟨2, 1, [2 ^ 63, 1]⟩ = 0x3FF8000000000000 ∧ mpf_get_d ⟨-2, 18, [1, 1]⟩ = 0xFFF0000000000000 ∧
+    mpf_get_d ⟨1, -16, [1]⟩ = 0 ∧ mpf_get_d ⟨1, -16, [3 * 2 ^ 13]⟩ = 1 := by decide
+
+/-- mpf_get_d_2exp: the exponent is the bit position just above the value's leading bit and the double is the
+    mantissa scaled into [0.5, 1) and truncated: decoded, d = ± m·2^-53 with m the 53 leading bits. -/
+theorem mpf_get_d_2exp_spec (f : F) (hf : f.wf) (hnz : f.size ≠ 0) (hsz : f.d.length < 2 ^ 57) :
+    (mpf_get_d_2exp f).2 = f.exp * 64 - (64 * f.d.length - bitlen (val f.d) : Nat) ∧
+    (mpf_get_d_2exp f).1 = truncToDouble f.mant (-(bitlen (val f.d) : Int)) ∧
+    decode (mpf_get_d_2exp f).1 = .fin (decide (f.mant < 0)) (shiftZ (val f.d) (53 - (bitlen (val f.d) : Int))) (-53) ∧
+    2 ^ 52 ≤ shiftZ (val f.d) (53 - (bitlen (val f.d) : Int)) ∧ shiftZ (val f.d) (53 - (bitlen (val f.d) : Int)) < 2 ^ 53 := by
+  have hne : f.d ≠ [] := by intro e; have := hf.1; rw [e] at this; simp at this; omega
+  obtain ⟨hbl, hls⟩ := bitlen_val hf.2.1 hne hf.2.2.1
+  have hlen := hf.1
+  have hn : 1 ≤ f.d.length := by cases hd : f.d with | nil => exact absurd hd hne | cons _ _ => simp
+  have hv : 1 ≤ val f.d := le_trans (Bpow_pos _) (val_ge_of_top f.d hne hf.2.2.1)
+  have hx : f.mant ≠ 0 := by unfold F.mant; split <;> omega
+  have hxa : f.mant.natAbs = val f.d := by unfold F.mant; split <;> omega
+  have e1 : (mpf_get_d_2exp f).2 = f.exp * 64 - (64 * f.d.length - bitlen (val f.d) : Nat) := by
+    unfold mpf_get_d_2exp; rw [if_neg hnz]; dsimp only
+    rw [hbl, ← hlen]; omega
+  have e2 : (mpf_get_d_2exp f).1 = truncToDouble f.mant (-(bitlen (val f.d) : Int)) := by
+    unfold mpf_get_d_2exp; rw [if_neg hnz]; dsimp only
+    have hexp : ((f.size.natAbs : Int) * 64 - (clz64 (f.d.getD (f.size.natAbs - 1) 0) : Int)) = (bitlen (val f.d) : Int) := by
+      rw [hbl, ← hlen]; omega
+    rw [hexp]
+    have hb : (bitlen (val f.d) : Int) ≤ 2 ^ 63 := by rw [hbl]; omega
+    have := mpn_get_d_eq f.d f.size (-(bitlen (val f.d) : Int)) hf.2.1 hf.2.2.1 hsz
+      (by unfold LONG_MIN; omega) (by unfold LONG_MAX; omega)
+    rw [this]; rfl
+  obtain ⟨_, c2, _, _⟩ := truncate53_clauses f.mant (-(bitlen (val f.d) : Int)) hx
+  rw [hxa] at c2
+  obtain ⟨dd, t1, t2⟩ := c2 (by omega) (by omega)
+  refine ⟨e1, e2, ?_, t1, t2⟩
+  rw [e2, decode_truncToDouble, dd]; congr 1; omega
+
+example : mpf_get_d_2exp ⟨2, 1, [2 ^ 63, 1]⟩ = (0x3FE8000000000000, 1) ∧ mpf_get_d_2exp ⟨-1, -3, [5]⟩ = (0xBFE4000000000000, -253) := by decide
+
 end Mpir.Conv
